@@ -1,0 +1,12 @@
+//go:build verif
+
+// Contracts for package recordverifier, checked by /verif (govc). Comment-only.
+package recordverifier
+
+// ---------------------------------------------------------------------------------------------
+// C03: where the network acceptor is required, a record passes only if the acceptor identity it names
+// is the configured network key and that key signed the record's payload.
+//@ func (*recordVerifier).VerifyAcceptor
+//@   requires r != nil && rec != nil && r.store != nil
+//@   ensures [acceptor_is_network_key] err == nil ==> r.networkKey != nil
+//@   ensures [acceptor_signed] err == nil ==> (exists k crypto.PubKey :: k != nil && k.Equals(r.networkKey) && sigOK(k, bytestr(rec.Payload), rec.AcceptorSignature))
